@@ -107,7 +107,7 @@ STD = {
     # suffix of the callee path -> template name
     "option::Option::<T>::or_else": "or_else", "option::Option::<T>::unwrap_or_else": "unwrap_or_else", "option::Option::<T>::ok_or_else": "ok_or_else",
     "option::Option::<T>::map": "map", "option::Option::<T>::and_then": "and_then", "option::Option::<T>::filter": "filter",
-    "bool::then": "then",
+    "bool::then": "then", "<impl bool>::then": "then",
     "iterator::Iterator::any": "any", "iterator::Iterator::all": "all", "iterator::Iterator::find": "find", "iterator::Iterator::find_map": "find_map",
     "iterator::Iterator>::any": "any", "iterator::Iterator>::all": "all", "iterator::Iterator>::find": "find", "iterator::Iterator>::find_map": "find_map",
 }
